@@ -59,10 +59,16 @@ def decorate(spec, mode):
     else:
         ids = [10 * (m - i) for i in range(m)]
     s["edges"] = [[ids[i], mem] for i, (_, mem) in enumerate(spec["edges"])]
+    # attribute names include the names of the adders' own parameters (node, self, idx, members, edge)
     if spec["nodes"]:
-        s["nattr"] = {spec["nodes"][0]: {"c": "r", "k": [1, {"z": 2}]}}
+        s["nattr"] = {spec["nodes"][0]: {"c": "r", "k": [1, {"z": 2}], "node": "first"},
+                      spec["nodes"][-1]: {"node": "last", "self": 1, "attr": 2}}
+        if len(spec["nodes"]) == 1:
+            s["nattr"] = {spec["nodes"][0]: {"c": "r", "k": [1, {"z": 2}], "node": "only", "self": 1}}
     if m:
-        s["eattr"] = {0: {"w": 2, "tag": "a"}, m - 1: {"w": 0.5}}
+        s["eattr"] = {0: {"w": 2, "tag": "a", "idx": 5, "members": [9]}, m - 1: {"w": 0.5, "edge": "x", "self": 0}}
+        if m == 1:
+            s["eattr"] = {0: {"w": 2, "tag": "a", "idx": 5, "members": [9], "edge": "x", "self": 0}}
     s["net"] = {"name": "g", "meta": {"a": [1, 2]}}
     return s
 
